@@ -6,6 +6,7 @@ model reads the text back as `toP e`, which `into_exp` maps to `e` again.
 import Rooc.DisplayParse
 import Rooc.Proofs.Group
 import Rooc.Proofs.LexFormat
+import Rooc.Proofs.Program
 namespace Rooc.Display
 open Rooc Rooc.Syntax Rooc.Syntax.Proofs Rooc.Syntax.Doc
 
@@ -404,6 +405,343 @@ theorem intoExp_toP : (e : Exp α) → Frag tok numOf e → intoExp numOf (toP t
   | .or [], h => by simp [Frag] at h
   | .or [_], h => by simp [Frag] at h
   | .or (_ :: _ :: _ :: _), h => by simp [Frag] at h
+end
+
+
+/-! ### constraints -/
+
+theorem logicToks_expr {α : Type} (e : Exp α) {ts : List Tok} (h : ∀ tk ∈ ts, isExprTok tk = true) :
+    ∀ tk ∈ logicToks e ts, isExprTok tk = true := by
+  unfold logicToks
+  split
+  · exact h
+  · split
+    · split
+      · exact h
+      · exact mem_paren_expr h
+    · exact mem_paren_expr h
+
+section
+variable {α : Type} [Arith α] (tok : α → String) (numOf : String → α)
+
+theorem numTok_expr (s : String) : isExprTok (numTok s) = true := by unfold numTok; split <;> rfl
+
+/-- the rendering uses expression tokens only -/
+theorem dToks_expr : (e : Exp α) → Frag tok numOf e → ∀ ctx, ∀ tk ∈ dToks tok ctx e, isExprTok tk = true
+  | .num v, _, ctx => by intro tk h; simp [dToks] at h; subst h; exact numTok_expr _
+  | .var n, _, ctx => by intro tk h; simp [dToks] at h; subst h; rfl
+  | .bin op l r, h, ctx => by
+    have ihl := dToks_expr l h.2.2.2.1 (some (op, false))
+    have ihr := dToks_expr r h.2.2.2.2 (some (op, true))
+    have body : ∀ tk ∈ dToks tok (some (op, false)) l ++ binKwTok op :: dToks tok (some (op, true)) r, isExprTok tk = true := by
+      intro tk htk
+      rcases List.mem_append.mp htk with h1 | h1
+      · exact ihl tk h1
+      · rcases List.mem_cons.mp h1 with rfl | h1
+        · exact binKwTok_expr op
+        · exact ihr tk h1
+    cases ctx with
+    | none => simpa [dToks] using body
+    | some p =>
+      obtain ⟨parent, isRhs⟩ := p
+      by_cases hp : parensRule parent isRhs op = true
+      · simpa [dToks, hp] using mem_paren_expr body
+      · simpa [dToks, hp] using body
+  | .un .neg e, h, ctx => by
+    have h' : Frag tok numOf e := h
+    have ih := dToks_expr e h' none
+    intro tk htk
+    simp only [dToks] at htk
+    rcases List.mem_cons.mp htk with rfl | htk
+    · rfl
+    · split at htk
+      · exact ih tk htk
+      · exact mem_paren_expr ih tk htk
+  | .not e, h, ctx => by
+    have h' : Frag tok numOf e := h
+    have ih := dToks_expr e h' none
+    intro tk htk
+    simp only [dToks] at htk
+    rcases List.mem_cons.mp htk with rfl | htk
+    · rfl
+    · split at htk
+      · exact ih tk htk
+      · exact mem_paren_expr ih tk htk
+  | .and [a, b], h, ctx => by
+    intro tk htk
+    simp only [dToks] at htk
+    rcases List.mem_append.mp htk with h1 | h1
+    · exact logicToks_expr a (dToks_expr a h.1 none) tk h1
+    · rcases List.mem_cons.mp h1 with rfl | h1
+      · rfl
+      · exact logicToks_expr b (dToks_expr b h.2 none) tk h1
+  | .or [a, b], h, ctx => by
+    intro tk htk
+    simp only [dToks] at htk
+    rcases List.mem_append.mp htk with h1 | h1
+    · exact logicToks_expr a (dToks_expr a h.1 none) tk h1
+    · rcases List.mem_cons.mp h1 with rfl | h1
+      · rfl
+      · exact logicToks_expr b (dToks_expr b h.2 none) tk h1
+  | .xor a b, h, ctx => by
+    intro tk htk
+    simp only [dToks] at htk
+    rcases List.mem_append.mp htk with h1 | h1
+    · exact logicToks_expr a (dToks_expr a h.1 none) tk h1
+    · rcases List.mem_cons.mp h1 with rfl | h1
+      · rfl
+      · exact logicToks_expr b (dToks_expr b h.2 none) tk h1
+  | .implies a b, h, ctx => by
+    intro tk htk
+    simp only [dToks] at htk
+    rcases List.mem_append.mp htk with h1 | h1
+    · exact logicToks_expr a (dToks_expr a h.1 none) tk h1
+    · rcases List.mem_cons.mp h1 with rfl | h1
+      · rfl
+      · exact logicToks_expr b (dToks_expr b h.2 none) tk h1
+  | .iff a b, h, ctx => by
+    intro tk htk
+    simp only [dToks] at htk
+    rcases List.mem_append.mp htk with h1 | h1
+    · exact logicToks_expr a (dToks_expr a h.1 none) tk h1
+    · rcases List.mem_cons.mp h1 with rfl | h1
+      · rfl
+      · exact logicToks_expr b (dToks_expr b h.2 none) tk h1
+  | .un .not e, h, _ => by simp [Frag] at h
+  | .abs _, h, _ => by simp [Frag] at h
+  | .min _, h, _ => by simp [Frag] at h
+  | .max _, h, _ => by simp [Frag] at h
+  | .and [], h, _ => by simp [Frag] at h
+  | .and [_], h, _ => by simp [Frag] at h
+  | .and (_ :: _ :: _ :: _), h, _ => by simp [Frag] at h
+  | .or [], h, _ => by simp [Frag] at h
+  | .or [_], h, _ => by simp [Frag] at h
+  | .or (_ :: _ :: _ :: _), h, _ => by simp [Frag] at h
+
+/-- the rendering is not empty (it lexes from a non-empty text: shown via the parser reading it) -/
+theorem dToks_ne_nil (e : Exp α) (h : Frag tok numOf e) : ∃ tk tl, dToks tok none e = tk :: tl := by
+  obtain ⟨items, hk, _⟩ := tkShow tok numOf e h none
+  cases hd : dToks tok none e with
+  | cons tk tl => exact ⟨tk, tl, rfl⟩
+  | nil =>
+    exfalso
+    rw [hd] at hk
+    have := parse_tk hk
+    simp [parseToks, parseFuel, parseExp, collect, optUnary, leaf] at this
+
+/-- one rendered expression followed by a terminator is read back as `toP e` -/
+theorem expAt_dToks (e : Exp α) (h : Frag tok numOf e) {rest : List Tok} (hc : Closed rest) :
+    expAt (dToks tok none e ++ rest) = .ok (toP tok e, rest) := by
+  obtain ⟨items, hk, _⟩ := tkShow tok numOf e h none
+  exact parseExp_of_main (tk_main hk).1 hk.toIR hc _ (by simp [parseFuel]; omega)
+
+/-- a compiled constraint of the fragment: expressions in `Frag`, a plain name that is not a keyword -/
+def FragC (c : Constraint α) : Prop :=
+  (c.name.isEmpty = true ∨ (plainWord c.name.toList = true ∧ isKeyword c.name = false))
+  ∧ Frag tok numOf c.lhs ∧ (c.isAssert = true ∨ Frag tok numOf c.rhs)
+
+/-- **The tokens of a rendered compiled constraint are read by the constraint rule as the constraint.** -/
+theorem parseConstraint_dToks (c : Constraint α) (h : FragC tok numOf c) :
+    parseConstraint (constraintDToks tok c) = .ok (toPConstraint tok c, []) := by
+  obtain ⟨hn, hl, hr⟩ := h
+  have hbody : ∀ nm, constraintBody nm
+        (dToks tok none c.lhs ++ (if c.isAssert then [] else cmpTok (cmpOf c.cmp) :: dToks tok none c.rhs)) =
+      .ok ({ name := nm, lhs := toP tok c.lhs, cmp := if c.isAssert then .eq else cmpOf c.cmp,
+             rhs := if c.isAssert then .bool true else toP tok c.rhs, logic := c.isAssert, iterVars := [], iters := [] }, []) := by
+    intro nm
+    unfold constraintBody
+    cases ha : c.isAssert with
+    | true =>
+      simp only [if_true, List.append_nil]
+      have := expAt_dToks tok numOf c.lhs hl (rest := []) (Or.inl rfl)
+      simp only [List.append_nil] at this
+      rw [this]
+    | false =>
+      have hr' : Frag tok numOf c.rhs := by
+        rcases hr with hr | hr
+        · rw [ha] at hr; cases hr
+        · exact hr
+      simp only [Bool.false_eq_true, if_false]
+      rw [expAt_dToks tok numOf c.lhs hl (closed_of_term (cmpTok_term _) _)]
+      simp only [cmpOfTok_cmpTok]
+      have := expAt_dToks tok numOf c.rhs hr' (rest := []) (Or.inl rfl)
+      simp only [List.append_nil] at this
+      rw [this]
+  unfold parseConstraint constraintDToks toPConstraint
+  by_cases hne : c.name.isEmpty = true
+  · -- no name: the second token is not `:`
+    have hcn : constraintName (dToks tok none c.lhs ++ (if c.isAssert then [] else cmpTok (cmpOf c.cmp) :: dToks tok none c.rhs))
+        = (none, dToks tok none c.lhs ++ (if c.isAssert then [] else cmpTok (cmpOf c.cmp) :: dToks tok none c.rhs)) := by
+      cases ha : c.isAssert with
+      | true =>
+        obtain ⟨tk, tl, e⟩ := dToks_ne_nil tok numOf c.lhs hl
+        have hall := dToks_expr tok numOf c.lhs hl none
+        simp only [if_true, List.append_nil, e]
+        rw [e] at hall
+        cases tl with
+        | nil => cases tk <;> rfl
+        | cons t2 tl2 =>
+          have h2 : t2 ≠ .colon := by
+            intro e2; have := hall t2 (by simp); rw [e2] at this; cases this
+          cases tk <;> first | rfl | skip
+          cases t2 <;> first | rfl | exact absurd rfl h2
+      | false =>
+        have := constraintName_none (x := cmpTok (cmpOf c.cmp)) (tail := dToks tok none c.rhs)
+          (dToks_ne_nil tok numOf c.lhs hl) (dToks_expr tok numOf c.lhs hl none) (by cases c.cmp <;> simp [cmpTok, cmpOf])
+        simpa using this
+    simp only [hne, if_true, List.nil_append, List.append_assoc]
+    rw [hcn]
+    exact hbody none
+  · have hne' : c.name.isEmpty = false := by simpa using hne
+    obtain ⟨_, hk⟩ : plainWord c.name.toList = true ∧ isKeyword c.name = false := by
+      rcases hn with hn | hn
+      · exact absurd hn hne
+      · exact hn
+    obtain ⟨tk, tl, e⟩ := dToks_ne_nil tok numOf c.lhs hl
+    have hx := dToks_expr tok numOf c.lhs hl none tk (by rw [e]; simp)
+    simp only [hne', Bool.false_eq_true, if_false, List.cons_append, List.nil_append, List.append_assoc, constraintName, hk]
+    have hsk : skipNl (dToks tok none c.lhs ++ (if c.isAssert then [] else cmpTok (cmpOf c.cmp) :: dToks tok none c.rhs)) =
+        dToks tok none c.lhs ++ (if c.isAssert then [] else cmpTok (cmpOf c.cmp) :: dToks tok none c.rhs) := by
+      rw [e]; exact skipNl_expr hx _
+    simp only [hsk]
+    exact hbody (some (.plain c.name))
+end
+
+
+/-! ### the text of a constraint -/
+
+/-- a plain word directly followed by `:` (copy of `lex_word` for the one delimiter `Delim` does not cover) -/
+theorem lex_word_colon (f : Nat) (cs rest : List Char) (pw : Bool) (acc : List Tok) (hw : plainWord cs = true) :
+    lexAux (f+1) (cs ++ ':' :: rest) pw acc = lexAux f (':' :: rest) true (.word (String.ofList cs) :: acc) := by
+  cases cs with
+  | nil => simp [plainWord] at hw
+  | cons c tl =>
+    simp only [plainWord, Bool.and_eq_true, List.all_eq_true, Bool.or_eq_true] at hw
+    obtain ⟨hc, htl⟩ := hw
+    have hall : ∀ d ∈ c :: tl, isWordChar d = true := by
+      intro d hd'
+      rcases List.mem_cons.mp hd' with rfl | hd'
+      · simp [isWordChar, hc]
+      · rcases htl d hd' with h | h <;> simp [isWordChar, h]
+    have hspan : spanWhile isWordChar (c :: (tl ++ ':' :: rest)) = (c :: tl, ':' :: rest) := by
+      have := spanWhile_all (p := isWordChar) (xs := c :: tl) (rest := ':' :: rest) hall
+        (by intro c' tl' e; injection e with e _; subst e; decide)
+      simpa using this
+    have hsimple : isSimpleRun (c :: tl) = true := by
+      have hcu : (c == '_') = false := by
+        have : c ≠ '_' := letter_ne hc (by decide)
+        simpa using this
+      simp only [isSimpleRun, spanWhile, hcu]
+      simp [hc]
+      intro d hd'
+      rcases htl d hd' with h | h <;> simp [h]
+    have h1 : c ≠ ' ' := letter_ne hc (by decide)
+    have h2 : c ≠ '\t' := letter_ne hc (by decide)
+    have h3 : c ≠ '/' := letter_ne hc (by decide)
+    have h4 : c ≠ '(' := letter_ne hc (by decide)
+    have h5 : c ≠ ')' := letter_ne hc (by decide)
+    have h6 : c ≠ ',' := letter_ne hc (by decide)
+    have h7 : c ≠ '+' := letter_ne hc (by decide)
+    have h8 : c ≠ '*' := letter_ne hc (by decide)
+    have h9 : c ≠ '!' := letter_ne hc (by decide)
+    have h10 : c ≠ '-' := letter_ne hc (by decide)
+    have h11 : c ≠ '<' := letter_ne hc (by decide)
+    have h12 : c ≠ '&' := letter_ne hc (by decide)
+    have h13 : c ≠ '|' := letter_ne hc (by decide)
+    have h14 : c ≠ '$' := letter_ne hc (by decide)
+    have h15 : c ≠ '_' := letter_ne hc (by decide)
+    have h16 : c ≠ '\n' := letter_ne hc (by decide)
+    have h17 : c ≠ '\r' := letter_ne hc (by decide)
+    have h18 : c ≠ ':' := letter_ne hc (by decide)
+    have h19 : c ≠ '=' := letter_ne hc (by decide)
+    have h20 : c ≠ '>' := letter_ne hc (by decide)
+    have hst : dotTDot (tl ++ ':' :: rest) = false := by
+      apply dotTDot_false
+      intro d tl' e
+      cases tl with
+      | nil => simp at e; rw [← e.1]; decide
+      | cons x xs =>
+        simp at e
+        rcases htl x List.mem_cons_self with h | h
+        · rw [← e.1]; exact letter_ne h (by decide)
+        · rw [← e.1]; exact digit_ne h (by decide)
+    simp [lexAux, h1, h2, h3, h4, h5, h6, h7, h8, h9, h10, h11, h12, h13, h14, h15, h16, h17, h18, h19, h20, hst,
+      letter_not_digit hc, hc, hspan, hsimple]
+
+def cmpChars : Rooc.Cmp → List Char
+  | .le => ['<', '='] | .ge => ['>', '='] | .eq => ['='] | .lt => ['<'] | .gt => ['>']
+
+theorem cmpStr_toList (c : Rooc.Cmp) : (cmpStr c).toList = cmpChars c := by cases c <;> rfl
+
+/-- a comparison between two spaces -/
+theorem lexTo_cmp (c : Rooc.Cmp) (r : List Char) (pw : Bool) (acc : List Tok) :
+    LexTo (cmpChars c ++ ' ' :: r) pw acc (' ' :: r) (cmpTok (cmpOf c) :: acc) := by
+  cases c <;>
+    exact LexTo.of_step (pw' := false) (fun f => by simp [cmpChars, cmpTok, cmpOf, lexAux]) (by simp [cmpChars])
+
+/-- `name: T` -/
+theorem Lexes.named {T : List Char} {ts : List Tok} (n : String) (hw : plainWord n.toList = true) (h : Lexes T ts) :
+    Lexes (n.toList ++ ':' :: ' ' :: T) (.word n :: .colon :: ts) := by
+  intro rest pw acc hd
+  have h1 : LexTo (n.toList ++ ':' :: ' ' :: (T ++ rest)) pw acc (':' :: ' ' :: (T ++ rest)) (.word n :: acc) := by
+    have := LexTo.of_step (fun f => lex_word_colon f n.toList (' ' :: (T ++ rest)) pw acc hw) (by
+      cases hn : n.toList with
+      | nil => rw [hn] at hw; simp [plainWord] at hw
+      | cons c tl => simp; omega)
+    simpa using this
+  have h2 : ∀ pw1, LexTo (':' :: ' ' :: (T ++ rest)) pw1 (.word n :: acc) (' ' :: (T ++ rest)) (.colon :: .word n :: acc) :=
+    fun pw1 => LexTo.of_step (pw' := false) (fun f => by simp [lexAux]) (by simp)
+  have h3 := fun pw1 => lexTo_space (T ++ rest) pw1 (.colon :: .word n :: acc)
+  have h4 := fun pw1 => h rest pw1 (.colon :: .word n :: acc) hd
+  have := ((h1.trans h2).trans h3).trans h4
+  simpa [List.append_assoc] using this
+
+/-- `L cmp R` -/
+theorem Lexes.cmp {L R : List Char} {tl tr : List Tok} (c : Rooc.Cmp) (hl : Lexes L tl) (hr : Lexes R tr) :
+    Lexes (L ++ ' ' :: (cmpChars c ++ ' ' :: R)) (tl ++ cmpTok (cmpOf c) :: tr) := by
+  intro rest pw acc hd
+  have h1 := hl (' ' :: (cmpChars c ++ ' ' :: (R ++ rest))) pw acc (delim_space _)
+  have h2 := fun pw1 => lexTo_space (cmpChars c ++ ' ' :: (R ++ rest)) pw1 (tl.reverse ++ acc)
+  have h3 := fun pw1 => lexTo_cmp c (R ++ rest) pw1 (tl.reverse ++ acc)
+  have h4 := fun pw1 => lexTo_space (R ++ rest) pw1 (cmpTok (cmpOf c) :: (tl.reverse ++ acc))
+  have h5 := fun pw1 => hr rest pw1 (cmpTok (cmpOf c) :: (tl.reverse ++ acc)) hd
+  have := (((h1.trans h2).trans h3).trans h4).trans h5
+  simpa [List.append_assoc] using this
+
+section
+variable {α : Type} [Arith α] (tok : α → String) (numOf : String → α)
+
+/-- **The text of a rendered compiled constraint is cut into `constraintDToks`.** -/
+theorem lex_displayConstraint (c : Constraint α) (h : FragC tok numOf c) :
+    lex (displayConstraint tok c).toList = .ok (constraintDToks tok c) := by
+  obtain ⟨hn, hl, hr⟩ := h
+  have L := lexShow tok numOf c.lhs hl none
+  -- the body after the name
+  have body : Lexes (if c.isAssert then (displayExp tok c.lhs).toList
+        else (displayExp tok c.lhs).toList ++ ' ' :: (cmpChars c.cmp ++ ' ' :: (displayExp tok c.rhs).toList))
+      (dToks tok none c.lhs ++ (if c.isAssert then [] else cmpTok (cmpOf c.cmp) :: dToks tok none c.rhs)) := by
+    cases ha : c.isAssert with
+    | true => simpa [displayExp] using L
+    | false =>
+      have hr' : Frag tok numOf c.rhs := by
+        rcases hr with hr | hr
+        · rw [ha] at hr; cases hr
+        · exact hr
+      simpa [displayExp] using Lexes.cmp c.cmp L (lexShow tok numOf c.rhs hr' none)
+  have all : Lexes (displayConstraint tok c).toList (constraintDToks tok c) := by
+    unfold displayConstraint constraintDToks
+    by_cases hne : c.name.isEmpty = true
+    · cases ha : c.isAssert <;> simp [hne, ha, String.toList_append, cmpStr_toList] <;> simpa [ha] using body
+    · have hne' : c.name.isEmpty = false := by simpa using hne
+      have hw : plainWord c.name.toList = true := by
+        rcases hn with hn | hn
+        · exact absurd hn hne
+        · exact hn.1
+      have := Lexes.named c.name hw body
+      cases ha : c.isAssert <;> simp [hne', ha, String.toList_append, cmpStr_toList, List.append_assoc] <;>
+        simpa [ha, List.append_assoc] using this
+  have := lex_of_lexTo (by simpa using all [] false [] (Or.inl rfl))
+  simpa using this
 end
 
 end Rooc.Display
